@@ -9,23 +9,34 @@
 (*     Close); refs >= references held by callers + the cache's own (Strict: equal);    *)
 (*     size <= capacity when nothing is reserved.  Eviction is free: an entry may       *)
 (*     disappear after any op (Cache!Evict), nothing may appear.                        *)
+(*   Read turns: a GetWithReadHandle that returns a valid ReadHandle holds the turn for  *)
+(*   its key (pt) until rhset / rherr, any number of ops later; meanwhile a              *)
+(*   GetWithReadHandle for that key comes with a cancelled context and returns the       *)
+(*   context's error (only then).  What any GetWithReadHandle returns is a miss (turn)   *)
+(*   or the latest value stored for exactly that key - also after Delete / EvictFile.    *)
 (* Mode C (read shard, TestVProtoCacheRS): TLC-generated schedules of Arrive / ReadOK / *)
-(*   ReadErr over the readers of one block; the block read function is the gate.        *)
+(*   ReadErr / Cancel (a waiter's context is cancelled) / Delete over the readers of one *)
+(*   block; the block read function is the gate.                                        *)
 (*   Strict replays Cache.tla's actions; Strict = FALSE checks only that every reader   *)
-(*   that got a value got the value of the successful read and that an error went only  *)
-(*   to the reader whose own read failed.                                               *)
+(*   that got a value got the value of the successful read (a reader arriving later: the *)
+(*   value most recently read and not deleted since), that a read error went only to the *)
+(*   reader whose own read failed and a context error only to the cancelled reader.      *)
 EXTENDS Cache, Json
 CONSTANTS Strict, MaxK
 Trace == ndJsonDeserialize("trace.ndjson")
-VARIABLES l, st, lt, hold, li   \* li: bytes of the most recently inserted value
-tvars == <<l, st, lt, hold, li, vars>>
+VARIABLES l, st, lt, hold, li,  \* li: bytes of the most recently inserted value
+          pt,                   \* pt[k]: a caller holds the read turn for key k (mode B)
+          rl                    \* mode C: id of the value most recently read into the cache and not deleted since, 0 = none
+SV == <<st, lt, hold, li, pt, rl>>
+tvars == <<l, st, lt, hold, li, pt, rl, vars>>
 Ev == Trace[l]
 Is(o) == l <= Len(Trace) /\ Trace[l].op = o /\ l' = l + 1
 TK == 1..MaxK
 SeqSet(s) == {s[i] : i \in 1..Len(s)}
 Zero == [k \in TK |-> 0]
+NoTurns == [k \in TK |-> FALSE]
 
-TraceInit == l = 1 /\ st = Zero /\ lt = Zero /\ hold = <<>> /\ li = 0 /\ Init /\ TLCSet(1, 0) /\ TLCSet(2, 0)
+TraceInit == l = 1 /\ st = Zero /\ lt = Zero /\ hold = <<>> /\ li = 0 /\ pt = NoTurns /\ rl = 0 /\ Init /\ TLCSet(1, 0) /\ TLCSet(2, 0)
 
 HoldOf(id) == IF id \in DOMAIN hold THEN hold[id] ELSE 0
 HoldAdd(id, d) == [x \in (DOMAIN hold \cup {id}) |-> IF x = id THEN HoldOf(id) + d ELSE hold[x]]
@@ -45,61 +56,81 @@ ObsOK(e, exp, h) ==
     /\ li' = (IF e.op \in {"set", "rhset"} THEN e.vsize ELSE li)
     /\ st' = [k \in TK |-> e.present[k]]
 
-NewCache == Is("newcache") /\ st' = Zero /\ lt' = Zero /\ hold' = <<>> /\ li' = 0 /\ UNCHANGED vars
+NewCache == Is("newcache") /\ st' = Zero /\ lt' = Zero /\ hold' = <<>> /\ li' = 0 /\ pt' = NoTurns /\ UNCHANGED <<rl, vars>>
 SetOp == /\ Is("set") /\ ObsOK(Ev, [st EXCEPT ![Ev.k] = Ev.id], hold)
-         /\ lt' = [lt EXCEPT ![Ev.k] = Ev.id] /\ UNCHANGED <<hold, vars>>
+         /\ lt' = [lt EXCEPT ![Ev.k] = Ev.id] /\ UNCHANGED <<hold, pt, rl, vars>>
 (* Get: a hit returns exactly what is stored (= latest), and the caller now holds a reference *)
 GetOp == /\ Is("get")
          /\ Ev.res \in {0, lt[Ev.k]}                                                       \* C34: miss or the latest value for exactly this key
          /\ (Strict => Ev.res = st[Ev.k])
          /\ LET h2 == IF Ev.res # 0 THEN HoldAdd(Ev.res, 1) ELSE hold IN ObsOK(Ev, st, h2) /\ hold' = h2
-         /\ UNCHANGED <<lt, vars>>
+         /\ UNCHANGED <<lt, pt, rl, vars>>
 RelOp == /\ Is("rel") /\ HoldOf(Ev.id) > 0
          /\ LET h2 == HoldAdd(Ev.id, -1) IN ObsOK(Ev, st, h2) /\ hold' = h2
-         /\ UNCHANGED <<lt, vars>>
+         /\ UNCHANGED <<lt, pt, rl, vars>>
 DelOp == /\ Is("del") /\ ObsOK(Ev, [st EXCEPT ![Ev.k] = 0], hold)
-         /\ lt' = [lt EXCEPT ![Ev.k] = 0] /\ UNCHANGED <<hold, vars>>
+         /\ lt' = [lt EXCEPT ![Ev.k] = 0] /\ UNCHANGED <<hold, pt, rl, vars>>
 (* EvictFile / handle Close: every key of the file / handle is gone *)
 DropKeys == /\ (Is("evictfile") \/ Is("closeh"))
             /\ ObsOK(Ev, [k \in TK |-> IF k \in SeqSet(Ev.ks) THEN 0 ELSE st[k]], hold)
-            /\ lt' = [k \in TK |-> IF k \in SeqSet(Ev.ks) THEN 0 ELSE lt[k]] /\ UNCHANGED <<hold, vars>>
-Other == /\ (Is("newh") \/ Is("reserve") \/ Is("unreserve")) /\ ObsOK(Ev, st, hold) /\ UNCHANGED <<lt, hold, vars>>
-(* sequential GetWithReadHandle: hit like Get; on a miss the caller has the turn and then sets a value or an error *)
+            /\ lt' = [k \in TK |-> IF k \in SeqSet(Ev.ks) THEN 0 ELSE lt[k]] /\ UNCHANGED <<hold, pt, rl, vars>>
+Other == /\ (Is("newh") \/ Is("reserve") \/ Is("unreserve")) /\ ObsOK(Ev, st, hold) /\ UNCHANGED <<lt, hold, pt, rl, vars>>
+(* GetWithReadHandle (one caller at a time): a hit like Get; on a miss the caller gets the read turn - unless another   *)
+(* caller holds it: then it would wait, its context is cancelled and it gets the context's error (nothing else).         *)
+(* The turn is given back by rhset (SetReadValue) or rherr (SetReadError), possibly many ops later.                      *)
 RhGet == /\ Is("rhget")
-         /\ Ev.res \in {0, lt[Ev.k]} /\ (Strict => Ev.res = st[Ev.k]) /\ (Ev.turn <=> Ev.res = 0)
+         /\ (IF Ev.err
+             THEN Ev.cancelled /\ pt[Ev.k] /\ Ev.res = 0 /\ ~Ev.turn
+             ELSE /\ Ev.res \in {0, lt[Ev.k]}                                             \* C34: a miss or the latest value of exactly this key
+                  /\ (Strict => Ev.res = st[Ev.k])
+                  /\ (Ev.turn <=> Ev.res = 0) /\ (Ev.turn => ~pt[Ev.k]))                 \* single flight: one turn per key
          /\ LET h2 == IF Ev.res # 0 THEN HoldAdd(Ev.res, 1) ELSE hold IN ObsOK(Ev, st, h2) /\ hold' = h2
-         /\ UNCHANGED <<lt, vars>>
-RhSet == /\ Is("rhset") /\ ObsOK(Ev, [st EXCEPT ![Ev.k] = Ev.id], HoldAdd(Ev.id, 1))
+         /\ pt' = [pt EXCEPT ![Ev.k] = pt[Ev.k] \/ Ev.turn]
+         /\ UNCHANGED <<lt, rl, vars>>
+RhSet == /\ Is("rhset") /\ pt[Ev.k] /\ ObsOK(Ev, [st EXCEPT ![Ev.k] = Ev.id], HoldAdd(Ev.id, 1))
          /\ hold' = HoldAdd(Ev.id, 1)          \* SetReadValue leaves the caller with its own reference
-         /\ lt' = [lt EXCEPT ![Ev.k] = Ev.id] /\ UNCHANGED vars
-RhErr == /\ Is("rherr") /\ ObsOK(Ev, st, hold) /\ UNCHANGED <<lt, hold, vars>>
+         /\ pt' = [pt EXCEPT ![Ev.k] = FALSE]
+         /\ lt' = [lt EXCEPT ![Ev.k] = Ev.id] /\ UNCHANGED <<rl, vars>>
+RhErr == /\ Is("rherr") /\ pt[Ev.k] /\ ObsOK(Ev, st, hold) /\ pt' = [pt EXCEPT ![Ev.k] = FALSE] /\ UNCHANGED <<lt, hold, rl, vars>>
 
 (* ---- mode C: one read-shard episode on a fresh cache; ids restart at 1 ---- *)
 RStart == /\ Is("rstart") /\ Ev.readers = Readers
           /\ stored' = [k \in Keys |-> 0] /\ latest' = [k \in Keys |-> 0]
           /\ holders' = [v \in Vals |-> 0] /\ refs' = [v \in Vals |-> 0] /\ freed' = [v \in Vals |-> FALSE]
           /\ nextv' = 1 /\ turn' = 0 /\ waiters' = {} /\ out' = [r \in RS |-> 0] /\ errs' = 0
-          /\ UNCHANGED <<st, lt, hold, li>>
+          /\ rec' = 0 /\ rev' = 0 /\ stale' = FALSE
+          /\ rl' = 0 /\ UNCHANGED <<st, lt, hold, li, pt>>
 (* what the real readers reported since the previous scheduler action: rets = [[reader, code]...], code as Cache!out; *)
 (* turns = readers that came back holding the read turn; blocked = readers still inside GetWithReadHandle *)
 RsView(e) == /\ \A i \in 1..Len(e.rets) : out'[e.rets[i][1]] = e.rets[i][2]
              /\ {r \in RS : out'[r] # 0 /\ out[r] = 0} = {e.rets[i][1] : i \in 1..Len(e.rets)}
              /\ turn' = e.turn /\ waiters' = SeqSet(e.blocked)
+(* a reader that arrives gets the read turn, waits, or receives the value most recently read and not deleted since *)
 RArrive == /\ Is("arrive")
-           /\ (IF Strict THEN Arrive(Ev.r) /\ RsView(Ev) ELSE UNCHANGED vars)
-           /\ UNCHANGED <<st, lt, hold, li>>
+           /\ \A i \in 1..Len(Ev.rets) : Ev.rets[i] = <<Ev.r, rl>> /\ rl # 0               \* C34: never an invalidated value
+           /\ (IF Strict THEN Arrive(Ev.r) /\ RsView(Ev) /\ ~stale' ELSE UNCHANGED vars)
+           /\ UNCHANGED SV
 ROk == /\ Is("readok")
        /\ \A i \in 1..Len(Ev.rets) : Ev.rets[i][2] = Ev.id                                \* C34: everybody released by this read got ITS value
        /\ (IF Strict THEN ReadOK(Ev.r) /\ nextv = Ev.id /\ RsView(Ev) ELSE UNCHANGED vars)
-       /\ UNCHANGED <<st, lt, hold, li>>
+       /\ rl' = Ev.id /\ UNCHANGED <<st, lt, hold, li, pt>>
 RErr == /\ Is("readerr")
         /\ \A i \in 1..Len(Ev.rets) : Ev.rets[i] = <<Ev.r, -1>>                             \* C34: the error goes to the reader whose read failed, only
         /\ (IF Strict THEN ReadErr(Ev.r) /\ RsView(Ev) ELSE UNCHANGED vars)
-        /\ UNCHANGED <<st, lt, hold, li>>
-NoFollow == Is("nofollow") /\ ~Strict /\ UNCHANGED <<st, lt, hold, li, vars>>
+        /\ UNCHANGED SV
+(* the context of a waiting reader is cancelled: that reader, and nobody else, returns the context's error *)
+RCancel == /\ Is("cancel")
+           /\ \A i \in 1..Len(Ev.rets) : Ev.rets[i] = <<Ev.r, -3>>                          \* C34
+           /\ (IF Strict THEN Cancel(Ev.r) /\ RsView(Ev) ELSE UNCHANGED vars)
+           /\ UNCHANGED SV
+(* Delete of the block: nobody returns because of it *)
+RDel == /\ Is("rdel") /\ Len(Ev.rets) = 0
+        /\ (IF Strict THEN Delete(RK) /\ RsView(Ev) ELSE UNCHANGED vars)
+        /\ rl' = 0 /\ UNCHANGED <<st, lt, hold, li, pt>>
+NoFollow == Is("nofollow") /\ ~Strict /\ UNCHANGED <<SV, vars>>
 
 TraceNext == NewCache \/ SetOp \/ GetOp \/ RelOp \/ DelOp \/ DropKeys \/ Other \/ RhGet \/ RhSet \/ RhErr
-             \/ RStart \/ RArrive \/ ROk \/ RErr \/ NoFollow
+             \/ RStart \/ RArrive \/ ROk \/ RErr \/ RCancel \/ RDel \/ NoFollow
 TraceSpec == TraceInit /\ [][TraceNext]_tvars
 HWM == IF l - 1 > TLCGet(1) THEN TLCSet(1, l - 1) ELSE TRUE
 TraceAccepted == PrintT(<<"HWM", TLCGet(1)>>) /\ PrintT(<<"OVERCAP", TLCGet(2)>>) /\ TLCGet(1) = Len(Trace)
